@@ -159,6 +159,7 @@ class World:
         self.up, self.down = [], []   # in flight: (deliver_at_ms, bytes)
         self.tunw_c, self.tunw_s = [], []      # frames written to the tun devices: (ms, frame)
         self.offered_c, self.offered_s = [], []
+        self.accepted_c, self.accepted_s = [], []
         self.td, self.pw = td, pw
         self.c_sel = None             # what the client's parked select asked for
         self.c_deadline = None
@@ -309,14 +310,25 @@ class World:
         self.pending_s = getattr(self, "pending_s", []) + [frame]
 
     def pump_tun(self):
-        """hand pending tun frames to whichever side currently has its tun fd selected"""
+        """hand pending tun frames to whichever side currently has its tun fd selected; record which frames the side ACCEPTED (a client
+        that is still sending reads and discards the frame; a server with a full queue drops it — both by design)"""
         did = False
         pc = getattr(self, "pending_c", [])
         if pc and self.c_sel is not None and self.c_sel.get("tun"):
-            self.cop("tun " + vlib.hx(pc.pop(0))); did = True
+            sending = self.c_state.get("out", "0/").split("/")[0] != "0"
+            f = pc.pop(0)
+            self.cop("tun " + vlib.hx(f)); did = True
+            if not sending:
+                self.accepted_c.append((self.ms, f))
         ps = getattr(self, "pending_s", [])
         if ps and self.s.steps and self.s.steps[-1].sel.get("tunsel"):
-            self.sop("tun " + vlib.hx(ps.pop(0))); did = True
+            slots = self.s.steps[-1].slots
+            d = slots.get(0)
+            f = ps.pop(0)
+            room = d is not None and d.get("au") == "1" and (d["out"].split("/")[0] == "0" or int(d["oq"].split("/")[1]) < 4 or d.get("conn") == "0")
+            self.sop("tun " + vlib.hx(f)); did = True
+            if room:
+                self.accepted_s.append((self.ms, f))
         return did
 
     def settle(self, max_ms=30000):
